@@ -11,11 +11,11 @@ SIM_NOTE = ("Trusted base: SimNode's model of lightningd (DESIGN 2.2 assumptions
 CHECKS = {
  "C01": ("sim", "exploration", "online monitor over seeded hostile simulations of the real manager/store/provider (runtime monitoring)",
          "R01a SHA256(key)==htlc hash, R01b key comes from a complete part or the Succeeded record, R01c no pay while holding an HTLC with that invoice but another hash; evaluated on every Resolve / pay across 24k (quick) or 1M (thorough) runs with hash-mismatch-heavy plans, crashes and restarts. Held on the executions explored, not a proof.", SIM_NOTE),
- "C02": ("sim+e2e", "fault_enumeration", "online monitor at every Fail emission against node ground truth; random hostile schedules plus enumeration of every crash position / single write fault in canonical scenarios",
+ "C02": ("sim+e2e", "fault_enumeration", "online monitor at every Fail emission against node ground truth; random hostile schedules (incl. deliveries preempted at their first awaits while a second event is handled) plus enumeration of every crash position / single write fault in canonical scenarios",
          "R02: no trampoline HTLC is failed while a part is pending/complete or pay is running, judged at the instant of emission against SimNode; crashes, restarts, F1 write faults (all tiers), F2 read faults (thorough); plus enumeration of one crash / one write fault at every position of canonical 1-2 HTLC payments for every pay outcome; plus an E2E session through the real rpc.rs in which the pay command runs for 33 s (35/35/65 s thorough) and the HTLC must stay held.", SIM_NOTE + " E2E part trusts the fake lightningd."),
  "C03": ("sim", "exploration", "online monitor at every pay RPC against the set of delivered-unanswered HTLCs (runtime monitoring)",
          "R03a funded in u128, R03b maxfee within held-amount budget, R03c amount/bolt11 parameters, evaluated at every pay issue; fee-boundary +-1 msat plans, 1-8 parts, late extra HTLCs, restarts.", SIM_NOTE),
- "C04": ("sim", "exploration", "online monitor at every pay RPC against held expiries and the heights told to the plugin (runtime monitoring)",
+ "C04": ("sim", "exploration", "online monitor at every pay RPC against held expiries and the heights told to the plugin; concurrent notification pairs with the first handler suspended at its first awaits (runtime monitoring)",
          "R04a maxdelay <= max(0, min expiry - known height - delta) and <= policy delta using the loosest sound snapshot; R04b low-expiry HTLC before funding rejects the set; heights advance during collection, real BlockWatcher in the loop.", SIM_NOTE),
  "C05": ("sim+e2e", "fault_enumeration", "online monitor at every pay RPC against the sendpay table; random schedules plus crash/fault position enumeration",
          "R05: no pay while a part of the hash is pending/complete or another pay runs, for overlapping lifecycles, every crash position around the two attempt writes and pay, every stored history at restart; plus E2E crash sessions (real binary SIGKILLed after RPC effect k, restarted against the surviving node state) judged on the node's own state, and sessions in which the RPC connection dies after pay was accepted (no second pay may follow).", SIM_NOTE + " E2E part trusts the fake lightningd."),
@@ -45,7 +45,7 @@ CHECKS = {
          "R18a no panic from from_bytes/try_from/to_bytes/get_tu64 on any input; R18b decode-encode identity on valid BOLT streams (and the length-prefixed entry point agrees); R18c encode-decode identity; R18d tu64 value for 0-8 bytes, rejection above. Exhaustive for all byte strings <=3 bytes and all strings <=7 over a 7-letter boundary alphabet.", "Trusted base: the independent BigSize/TLV reference codec in the harness."),
  "C19": ("e2e", "exploration", "start-up and probe sessions of the real binary under a fake lightningd for pairwise option assignments; reference validity predicate",
          "R19a refuse (exit non-zero, no init ack) iff a value is out of range or policy delta <= safety delta, else acknowledge and keep serving; R19b accepted values are the ones applied: 201a bytes, pay retry_for/maxdelay/maxfee/label, self-route-hint flag, MPP timing (one-sided).", "Trusted base: the fake lightningd; wall clock used one-sidedly (late = inconclusive)."),
- "C20": ("block+sim+e2e", "exploration", "online monitor of current_height against the running maximum of heights told, under virtual time, with lost/duplicated/stale notifications and failing polls; bounded catch-up check",
+ "C20": ("block+sim+e2e", "exploration", "online monitor of current_height against the running maximum of heights told, under virtual time, with lost/duplicated/stale notifications, failing polls and concurrent notification pairs preempted at their awaits; bounded catch-up check",
          "R20a current_height == max(heights told) after every step (never decreases); R20b with notifications lost and polls answered, height catches up within one poll interval (61 s virtual); E2E sessions feed block_added notifications (and, thorough, a silent rise + 63 s wait) to the real binary and read the height used off pay.maxdelay.", "Trusted base: tokio paused clock; getinfo replies are snapshots at evaluation time; fake lightningd in E2E."),
  "C13": ("sim", "exploration", "reference label Continue vs observed answer, RPC log and table size in the delivery window",
          "R13a continue at once, R13b no RPC in the delivery window, R13c nothing retained, R13d payload rewrite only drops record 16 (independent BigSize codec).", SIM_NOTE),
